@@ -16,7 +16,7 @@ COEFFS = ['100.5 1.3', 'harmonic  12.0   3', 'fourier 1e-3 -0.5 2', '7 # C_R N_R
           '0.105000 3.430851 # C_R', 'class2 1.0 2.0 -3.0 4.0e+2   #  two  words', '1', 'zero']
 CELLS = [('orthorhombic', np.diag([10.0, 11, 12])), ('positive tilts', np.array([[10.0, 0, 0], [3, 11, 0], [2, 1.5, 12]])),
          ('mixed-sign tilts', np.array([[10.0, 0, 0], [-3, 11, 0], [-2, 1.5, 12]])), ('all tilts negative', np.array([[10.0, 0, 0], [-3, 11, 0], [-2, -1.5, 12]])),
-         ('only yz tilted, negative', np.array([[10.0, 0, 0], [0, 11, 0], [0, -2.5, 12]])), ('tilt that prints as 0.000000', np.array([[10.0, 0, 0], [1e-8, 11, 0], [0, 0, 12]])), ('no cell', None)]
+         ('only yz tilted, negative', np.array([[10.0, 0, 0], [0, 11, 0], [0, -2.5, 12]])), ('tiny tilt 0.0002 (prints as 0.000200)', np.array([[15.0, 0, 0], [0, 16.0, 0], [0, 2e-4, 20.0]])), ('tilt that prints as 0.000000', np.array([[10.0, 0, 0], [1e-8, 11, 0], [0, 0, 12]])), ('no cell', None)]
 KOPT = [(0, 0), (1, 1), (2, 3), (3, 1), (3, 3), (2, 0)]          # (number of types, number of terms) per kind
 KSHAPES_Q = [(0, 0, 0, 0), (1, 1, 1, 1), (3, 3, 3, 3), (2, 2, 2, 2), (4, 4, 4, 4), (2, 1, 0, 4), (3, 0, 2, 1), (0, 3, 5, 0), (5, 5, 1, 2)]   # indices into KOPT
 ATYPES = [('two types', [0, 1, 1, 0], ['C', 'N'], [12.0107, 14.0067]), ('one type', [0, 0, 0, 0], ['C'], [12.0107]),
